@@ -134,7 +134,7 @@
      (else
       (+ count
          (cond ((iset-left iset) => iset-size) (else 0))
-         (integer-length (- element (iset-start iset))))))))
+         (- element (iset-start iset)))))))
 
 (define (nth-set-bit i n)
   ;; TODO: optimize
